@@ -395,3 +395,7 @@ br('C04', 'dead-flag-set-in-close', (PP, "            #if not self.is_alive():\n
 # a benign counterpart: PipeEndpoint.get honours its timeout, terminate() uses it
 ok('get-honours-timeout', [(U, "        try:\n            return self._pipe.recv()\n        except (EOFError, OSError):", "        try:\n            if timeout is not None and not self._pipe.poll(timeout):\n                raise queue.Empty\n            return self._pipe.recv()\n        except (EOFError, OSError):"),
                            (PR, "                if self._ctrl_comms.parent_end.poll(timeout): # an unresponsive child might never acknowledge\n                    self._ctrl_comms.parent_end.get()", "                self._ctrl_comms.parent_end.get(timeout=timeout)")])
+
+br('C03', 'send_result-swallows-everything', (PRM, "        self._counter += 1\n        send_msg(self._socket, (self._counter, True, result, self.id), comment=f'data: partial result {self._counter}')",
+                                              "        self._counter += 1\n        try:\n            send_msg(self._socket, (self._counter, True, result, self.id), comment=f'data: partial result {self._counter}')\n        except Exception:\n            logger.exception('could not send a result')"), 'closure-swallows-async')
+br('C03', 'recv_msg-translates-everything', (RM, "    except OSError as e:\n        raise ConnectionClosedError() from e\n    return bytes(data)", "    except Exception as e:\n        raise ConnectionClosedError() from e\n    return bytes(data)"), 'closure-swallows-async')
